@@ -79,6 +79,16 @@ def _neutral_variant(base: Path, i: int, nv, prop: str) -> dict:
     return {"variant": f"neu{i}", "kind": "neutral", "function": nv.function, "op": nv.op, "detail": nv.detail, "exit": rc, "rules": rules}
 
 
+def _retired_variant(base: Path, sd: Path, prop: str) -> dict:
+    """A seeded change that stopped breaking the property after a fix: commit - now a behaviour-preserving variant (must stay silent)."""
+    d = base / f"ret-{sd.name}"
+    _copy_src(d)
+    a = subprocess.run(["patch", "-p1", "-s", "-f", "-i", str(sd / "patch.diff")], cwd=d, capture_output=True, text=True)
+    rc, rules = _run_check(prop, d) if a.returncode == 0 else (0, [])
+    shutil.rmtree(d, ignore_errors=True)
+    return {"variant": f"retired-{sd.name}", "kind": "neutral", "function": sd.name, "op": "retired-seed", "detail": "seeded change made harmless by a fix", "exit": rc, "rules": rules}
+
+
 def run_selftest(prop: str, rep) -> int:
     base = _scratch_base()
     seed = int(os.environ.get("VERIF_SEED", "0") or 0)
@@ -87,6 +97,7 @@ def run_selftest(prop: str, rep) -> int:
         for sd in sorted((VERIF / "seeded").glob(f"{prop}-*")):
             if (sd / "patch.diff").exists():
                 jobs.append(("patch", sd.name, sd / "patch.diff", False))
+        retired = [sd for sd in sorted((VERIF / "seeded" / "_retired").glob(f"{prop}-*")) if (sd / "patch.diff").exists()] if (VERIF / "seeded" / "_retired").is_dir() else []
         idx = json.loads((VERIF / "selftest" / "reverse_fixes" / "INDEX.json").read_text())
         for commit, props in idx.items():
             if prop in props:
@@ -108,6 +119,7 @@ def run_selftest(prop: str, rep) -> int:
             futs = [ex.submit(_patch_variant, base, name, patch, rev, prop) for _, name, patch, rev in jobs]
             futs += [ex.submit(_mutant_variant, base, i, mu, prop) for i, mu in enumerate(gen)]
             futs += [ex.submit(_neutral_variant, base, i, nv, prop) for i, nv in enumerate(neu)]
+            futs += [ex.submit(_retired_variant, base, sd, prop) for sd in retired]
             for f in futs:
                 results.append(f.result())
     finally:
